@@ -11,6 +11,7 @@
 //! A *case* is (property, ciphersuite, scenario, case_seed).  Everything a scenario does is a
 //! function of case_seed, therefore `replay` only needs those four values.
 
+mod alloc_watch;
 mod common;
 mod indep;
 mod rng;
@@ -35,6 +36,9 @@ mod c17;
 mod c18;
 mod c19;
 mod c20;
+
+#[global_allocator]
+static GLOBAL: alloc_watch::Watch = alloc_watch::Watch;
 
 use std::cell::RefCell;
 use std::panic::{catch_unwind, AssertUnwindSafe};
